@@ -408,6 +408,10 @@ def run_sort():
         rr = attempt(lambda: sorted(tagged, key=lambda p: p[0], reverse=True))
         lt = [["E" if attempt(lambda: a < b)[0] != "ok" else ("1" if a < b else "0") for b in xs] for a in xs]
         emit("sort", name, [p[1] for p in r[1]] if r[0] == "ok" else None, [p[1] for p in rr[1]] if rr[0] == "ok" else None, lt)
+        # without key=: elements that compare equal but are distinguishable (1 / 1.0, 0.0 / -0.0) must keep their input order
+        nk = attempt(lambda: sorted(xs))
+        nkr = attempt(lambda: sorted(xs, reverse=True))
+        emit("sortnk", name, [repr(x) for x in xs], [repr(x) for x in nk[1]] if nk[0] == "ok" else None, [repr(x) for x in nkr[1]] if nkr[0] == "ok" else None)
 run_sort()
 """
 
@@ -424,7 +428,7 @@ def sort_cases(rng, n):
     }
     for i in range(n):
         k = rng.choice(list(pools))
-        m = rng.choice([0, 1, 2, 3, 5, 8, 13, 21, 40])
+        m = rng.choice([0, 1, 2, 3, 5, 8, 13, 21, 25, 33, 40, 64])
         xs = [pools[k]() for _ in range(m)]
         cases.append(("%s%d" % (k, i), xs))
     return cases
@@ -432,6 +436,36 @@ def sort_cases(rng, n):
 
 def check_sort(rep, evs, cases, flavor, stats):
     byname = {c[0]: c[1] for c in cases}
+    import functools
+    ltm = {}
+    for e in evs:
+        if e[0] == "e" and e[1] == "ssort":
+            ltm[e[2][1:]] = [[c[1:] for c in row[1:]] for row in e[5][1:]]
+    for e in evs:
+        if e[0] != "e" or e[1] != "ssortnk":
+            continue
+        name = e[2][1:]
+        lt = ltm.get(name)
+        reprs = [x[1:] for x in e[3][1:]]
+        n = len(reprs)
+        if lt is None or not all(c in "01" for row in lt for c in row):
+            continue
+        xs = byname[name]
+        if any("nan" in x for x in xs) or lossy_int_float([x for x in xs if pyval(x) is not None][:0] or ["0"]) :
+            continue
+        cmpf = functools.cmp_to_key(lambda a, b: -1 if lt[a][b] == "1" else (1 if lt[b][a] == "1" else 0))
+        for which, res, rev in (("sorted(xs)", e[4], False), ("sorted(xs, reverse=True)", e[5], True)):
+            if res is None:
+                continue
+            stats["sorts"] += 1
+            want = [reprs[i] for i in sorted(range(n), key=cmpf, reverse=rev)]
+            got = [x[1:] for x in res[1:]]
+            if got != want:
+                # int/float values beyond 2^53 compare inconsistently (known finding): not judged here
+                if any(isinstance(pyval(x), int) and abs(pyval(x)) > 2**53 for x in xs):
+                    continue
+                rep.violation("c09:sort-stable:no-key", "[%s] %s is not the stable order of %s: got %s, stable order is %s" % (flavor, which, xs, got[:30], want[:30]), {"values": xs, "result": got})
+                break
     for e in evs:
         if e[0] != "e" or e[1] != "ssort":
             continue
